@@ -32,6 +32,11 @@ CTX = {
     "head": ("# {}", "<h1>{}</h1>\n"),
     "em": ("*a {} a*", "<p><em>a {} a</em></p>\n"),
     "strong": ("__a {} a__", "<p><strong>a {} a</strong></p>\n"),
+    # unpadded: the delimiters touch t itself.  A paragraph consisting only of *esc(t)* is emphasis whenever t does not begin or
+    # end with Unicode whitespace (t == t.strip() guarantees that): at the start/end of the line both flanking conditions reduce to it
+    "em_tight": ("*{}*", "<p><em>{}</em></p>\n"),
+    "strong_tight": ("**{}**", "<p><strong>{}</strong></p>\n"),
+    "em_tight_us": ("_{}_", "<p><em>{}</em></p>\n"),
     "linktext": ("[{}](u)", '<p><a href="u">{}</a></p>\n'),
     "alt": ("![{}](u)", '<p><img src="u" alt="{}" /></p>\n'),
     "title_dq": ('[x](u "{}")', '<p><a href="u" title="{}">x</a></p>\n'),
